@@ -700,6 +700,15 @@ func buildScenario(r *vs.Rand, cfg scfg) *scenario {
 			older["spec"].(map[string]interface{})["image"] = "v00"
 			sc.putRevision(older, map[string][]string{cfg.Children[0].Resource: {rel(cfg.Children[0], "p1-0")}}, kindOf)
 		}
+		if r.Chance(25) {
+			// one of the parent's revisions lost its owner reference (an orphan the next sync adopts)
+			for _, o := range w.sim.List(revGroup, "controllerrevisions") {
+				w.sim.Mutate(revGroup, "controllerrevisions", objStr(o, "metadata", "namespace"), objStr(o, "metadata", "name"), func(x map[string]interface{}) {
+					delete(x["metadata"].(map[string]interface{}), "ownerReferences")
+				})
+				break
+			}
+		}
 	}
 	w.fillCaches()
 	return sc
